@@ -329,9 +329,9 @@ class Daemon(object):
         serializer_id = serializers.MarshalSerializer.serializer_id
         msg_seq = 0
         try:
+            current_context.response_annotations = {}   # nothing left over from an earlier request served by this thread
             msg = protocol.recv_stub(conn, [protocol.MSG_CONNECT])
             msg_seq = msg.seq
-            current_context.response_annotations = {}   # nothing left over from an earlier request served by this thread
             if denied_reason:
                 raise Exception(denied_reason)
             if config.LOGWIRE:
